@@ -171,6 +171,17 @@ int main(int argc, char** argv) {
             auto* ct = dyn_cast<DICompositeType>(t);
             if (!ct || ct->getName().empty())
                 continue;
+            if (ct->getTag() == dwarf::DW_TAG_enumeration_type && !ct->getIdentifier().empty()) {
+                json::Object vals;
+                for (auto* el : ct->getElements())
+                    if (auto* en = dyn_cast<DIEnumerator>(el))
+                        vals[en->getName().str()] = en->isUnsigned() ? (int64_t)en->getValue().getZExtValue() : (int64_t)en->getValue().getSExtValue();
+                json::Object lo;
+                lo["name"] = demangle(ct->getIdentifier().str());
+                lo["enum"] = std::move(vals);
+                layouts[ct->getIdentifier().str()] = std::move(lo);
+                continue;
+            }
             if (ct->getTag() != dwarf::DW_TAG_structure_type && ct->getTag() != dwarf::DW_TAG_class_type)
                 continue;
             std::string id = ct->getIdentifier().str();
